@@ -28,6 +28,21 @@ def _limit_programs():
     return P
 
 
+def over_limit_programs():
+    """programs just beyond the documented format limits: a compiler may refuse them, but whatever it emits must still be well-formed (C02 only)"""
+    def args(n): return ', '.join(str(i) for i in range(n))
+    def pars(n): return ', '.join('p%d' % i for i in range(n))
+    P = []
+    for n in (255, 256, 257):
+        P.append(('overlimit:method-call-%d-arguments' % n, 'let o = object begin function m(%s) -> p0 end; print("~\\n", o.m(%s))' % (pars(n), args(n))))
+        P.append(('overlimit:method-%d-parameters' % n, 'let o = object begin function m(%s) -> p0 + p%d end; o' % (pars(n), n - 1)))
+    for n in (256, 257):
+        P.append(('overlimit:function-%d-parameters' % n, 'function f(%s) -> p0 + p%d; print("~\\n", f(%s))' % (pars(n), n - 1, args(n))))
+        P.append(('overlimit:call-%d-arguments' % n, 'function f(a) -> a; print("~\\n", f(%s))' % args(n)))
+        P.append(('overlimit:print-%d-arguments' % n, 'print("%s\\n", %s)' % (' '.join(['~'] * n), args(n))))
+    return [{'name': n, 'text': t, 'ast': None} for n, t in P]
+
+
 def corpus():
     return [{'name': 'corpus:' + n, 'text': t, 'ast': None} for n, t in corpus_sources()] + [{'name': n, 'text': t, 'ast': None} for n, t in EDGE + _limit_programs()]
 
@@ -170,4 +185,9 @@ def big_programs(huge_pool=False):
          ('big:many-functions', '; '.join('function f%d(a, b) -> begin let t = a * %d + b; if t > 3 then print("f%d ~\\n", t) else t end' % (i, i, i) for i in range(150)) + '; ' + '; '.join('f%d(%d, 1)' % (i, i) for i in range(150))),
          ('big:utf8-4k-boundaries', '; '.join('print("%s%s\\n")' % ('a' * k, ch * n) for k, ch, n in [(1, 'é', 4500), (0, '世', 3000), (1, '世', 3000), (2, '世', 3000), (1, '😀', 2300), (3, '😀', 2300)])),
          ('big:utf8-strings', '; '.join('print("%s ~\\n", %d)' % ('é世😀' * (40 + i), i) for i in range(60)))]
-    return [{'name': n, 'text': t, 'ast': None} for n, t in P]
+    R = [{'name': n, 'text': t, 'ast': None} for n, t in P]
+    if huge_pool:
+        R.append({'name': 'big:33000-constants', 'text': '; '.join(str(i) for i in range(33000)) + '; print("~ ~\\n", 32999, 32768)', 'ast': None,
+                  'expect': b'32999 32768\n'})
+        R.append({'name': 'big:string-of-70000-bytes', 'text': 'print("%s|~\\n", 7)' % ('s' * 70000), 'ast': None, 'expect': b's' * 70000 + b'|7\n'})
+    return R
